@@ -8,7 +8,7 @@ CONSTANTS
   ScenPos = {0, 1, 2, 3, 4, 5}
   Variants = {"pinned"}
   Interleave = TRUE
-  Emit = FALSE
+  Emit = "none"
 VIEW view
 INVARIANTS AcceptOnlyLinked
 CHECK_DEADLOCK FALSE
